@@ -100,6 +100,25 @@ theorem groupOf_lt (rt : String) : groupOf rt < nGroups := by
 theorem doc_order_perm (rts : List String) : (writeOrder groupOf nGroups rts).Perm rts :=
   writeOrder_perm groupOf nGroups rts (fun x _ => groupOf_lt x)
 
+theorem groupIn_lt (rts : List String) (rt : String) : groupIn rts rt < nGroupsIn rts := by
+  unfold groupIn nGroupsIn
+  split
+  · have := groupOf_lt rt; unfold nGroups at this; omega
+  · have : (customKeys rts).idxOf rt ≤ (customKeys rts).length := List.idxOf_le_length; omega
+
+/-- **the written records are a permutation of the stored ones**, custom record types included -/
+theorem docOrder_perm (rts : List String) : (docOrder rts).Perm rts :=
+  writeOrder_perm _ _ rts (fun x _ => groupIn_lt rts x)
+
+/-- the grouping is a fixed point: the document order of a written document is itself, provided the custom
+    record types keep their order of first appearance (they do: `customKeys` only looks at first appearances
+    and each group is written whole) -/
+theorem docOrder_idem_keys (rts : List String) :
+    writeOrder (groupIn rts) (nGroupsIn rts) (docOrder rts) = docOrder rts :=
+  writeOrder_idem _ _ rts
+
+example : docOrder ["zz", "Y", "S", "X", "Y", "zz", "#"] = ["#", "S", "zz", "zz", "Y", "Y", "X"] := by decide
+
 example : writeOrder groupOf nGroups ["L", "S", "#", "X", "H", "S", "P", "C"] = ["#", "H", "S", "S", "L", "C", "P", "X"] := by decide
 
 end Gfa.C01Doc
